@@ -1,5 +1,32 @@
-//! Conformance harness for specification-growth module g02 (see /verif/DESIGN.md 12.6).
+//! Conformance harness for specification-growth module G02 (job-control
+//! built-ins over the job table and the simulated process table), see
+//! spec/JobCtl.tla.
+//!
+//! `yv-g02 explore --in GEN --out TRACE [--dfs-depth N] [--max-dfs M] [--random R] [--threads T]`
+//!   GEN lines: `{"m": bool, "h": [cmd...], "next": [cmd...]}`.  For every line and
+//!   every command c of `next` (or once for `h` alone if `next` is empty) the script
+//!   h+c is run by the REAL shell on the simulated OS: FIFO schedule, depth-first
+//!   over the first N scheduling choice points (at most M schedules), then R seeded
+//!   random schedules.  One record per *distinct* observation is written:
+//!   `{"m","script","steps","outcome","final","sched","nsched"}` (validated by
+//!   spec/Trace_JobCtl.tla).
+//! `yv-g02 run --script JSON [--m] [--prefix 0,1,..] [--text]`: one run, printed.
+mod run;
+
 fn main() {
-    eprintln!("yv-g02: not implemented yet");
-    std::process::exit(2);
+    let args: Vec<String> = std::env::args().collect();
+    if args.len() < 2 {
+        eprintln!("usage: yv-g02 <explore|run> ...");
+        std::process::exit(2);
+    }
+    let rest = &args[2..];
+    let code = match args[1].as_str() {
+        "explore" => run::explore(rest),
+        "run" => run::one(rest),
+        other => {
+            eprintln!("unknown subcommand {other}");
+            2
+        }
+    };
+    std::process::exit(code);
 }
